@@ -68,10 +68,13 @@ package minruntime
 //@     decreases ite(currentQueue == nil, 0, rank(currentQueue) + 1)
 //@   ensures [nearestAncestorElseDefault] result0.Duration == preemptMR(r, queue)
 //@   ensures result1 == nil
+//@   # C06 "minimum runtime configured for THEIR queue": the memo entry written is the one of this queue, and it is the resolved value
+//@   ensures [memoisedForThisQueue] old(r.preemptMinRuntimeCache) != nil ==> queue.UID in r.preemptMinRuntimeCache && r.preemptMinRuntimeCache[queue.UID].Duration == result0.Duration
+//@   ensures [noOtherQueueTouched] forall k common_info.QueueID :: k != queue.UID ==> (k in r.preemptMinRuntimeCache) == old(k in r.preemptMinRuntimeCache) && r.preemptMinRuntimeCache[k].Duration == old(r.preemptMinRuntimeCache[k].Duration)
 //@ end
 
-// Cache hit path: the cache is a map with struct values (metav1.Duration), which the engine
-// over-approximates, so the functional post is stated for the miss path only (see report).
+// The memo tables hold metav1.Duration values (single-scalar struct: stored as that scalar by the engine since batch 11),
+// so hit and miss paths are both stated.
 //@ func (*resolver).getPreemptMinRuntime
 //@   props C06
 //@   requires r != nil && acyclic(r)
@@ -80,6 +83,9 @@ package minruntime
 //@   ensures [nilQueueDefault] queue == nil ==> result0.Duration == r.defaultPreemptMinRuntime.Duration && result1 != nil
 //@   ensures [resolved] queue != nil && !old(queue.UID in r.preemptMinRuntimeCache) ==> result0.Duration == preemptMR(r, queue) && result1 == nil
 //@   ensures queue != nil ==> result1 == nil
+//@   ensures [memoHit] queue != nil && old(queue.UID in r.preemptMinRuntimeCache) ==> result0.Duration == old(r.preemptMinRuntimeCache[queue.UID].Duration)
+//@   ensures [memoKeptSound] queue != nil && old(r.preemptMinRuntimeCache) != nil ==> queue.UID in r.preemptMinRuntimeCache && r.preemptMinRuntimeCache[queue.UID].Duration == result0.Duration
+//@   ensures [noOtherQueueTouched] forall k common_info.QueueID :: queue == nil || k != queue.UID ==> (k in r.preemptMinRuntimeCache) == old(k in r.preemptMinRuntimeCache) && r.preemptMinRuntimeCache[k].Duration == old(r.preemptMinRuntimeCache[k].Duration)
 //@ end
 
 // Path from the top-level ancestor down to the queue itself: consecutive entries are parent/child,
@@ -104,17 +110,25 @@ package minruntime
 //@ declare reclaimMR(r *resolver, q *queue_info.QueueInfo) int
 //@ define reclaimMRdef(r *resolver) bool = reclaimMR(r, nil) == r.defaultReclaimMinRuntime.Duration && (forall q *queue_info.QueueInfo :: q != nil ==> reclaimMR(r, q) == ite(q.ReclaimMinRuntime != nil, q.ReclaimMinRuntime.Duration, reclaimMR(r, parentOf(r, q))))
 
+// C06 "minimum runtime configured for their queue" (reclaim: for the PAIR reclaimer queue / victim queue): the memo table
+// is keyed [reclaimer queue UID][victim queue UID]; an answer computed for one pair must never be filed under another.
+//@ define rcHas(r *resolver, a common_info.QueueID, b common_info.QueueID) bool = a in r.reclaimMinRuntimeCache && r.reclaimMinRuntimeCache[a] != nil && b in r.reclaimMinRuntimeCache[a]
+//@ define rcVal(r *resolver, a common_info.QueueID, b common_info.QueueID) int = r.reclaimMinRuntimeCache[a][b].Duration
+
 // "queue" resolution: walk up from the victim's (preemptee's) queue.
 //@ func (*resolver).resolveReclaimMinRuntimeQueue
 //@   props C06
 //@   requires r != nil && preemptorQueue != nil && preempteeQueue != nil && acyclic(r)
 //@   assume reclaimMRdef(r)
-//@   modifies family(r.reclaimMinRuntimeCache[*]), family(r.reclaimMinRuntimeCache[""][*])
+//@   # frame = "an answer computed for one pair is never filed under another": only the entry of THIS pair (and the
+//@   # reclaimer queue's row, created on first use) may change
+//@   modifies r.reclaimMinRuntimeCache[preemptorQueue.UID], r.reclaimMinRuntimeCache[preemptorQueue.UID][preempteeQueue.UID]
 //@   loop 1
 //@     invariant reclaimMR(r, currentQueue) == reclaimMR(r, preempteeQueue)
 //@     decreases ite(currentQueue == nil, 0, rank(currentQueue) + 1)
 //@   ensures [nearestAncestorElseDefault] result0.Duration == reclaimMR(r, preempteeQueue)
 //@   ensures result1 == nil
+//@   ensures [memoisedForThisPair] old(r.reclaimMinRuntimeCache) != nil ==> rcHas(r, preemptorQueue.UID, preempteeQueue.UID) && rcVal(r, preemptorQueue.UID, preempteeQueue.UID) == result0.Duration
 //@ end
 
 // "lca" resolution (resolver.go doc comment): find the lowest common ancestor of the two queues
@@ -130,7 +144,9 @@ package minruntime
 //@   props C06
 //@   requires r != nil && preemptorQueue != nil && preempteeQueue != nil && acyclic(r)
 //@   assume reclaimMRdef(r)
-//@   modifies family(r.reclaimMinRuntimeCache[*]), family(r.reclaimMinRuntimeCache[""][*])
+//@   # frame = "an answer computed for one pair is never filed under another": only the entry of THIS pair (and the
+//@   # reclaimer queue's row, created on first use) may change
+//@   modifies r.reclaimMinRuntimeCache[preemptorQueue.UID], r.reclaimMinRuntimeCache[preemptorQueue.UID][preempteeQueue.UID]
 //@   loop 1
 //@     invariant 0 <= i && i <= minLength && 0 <= lcaIndex && lcaIndex < minLength
 //@     invariant lcaIndex == ite(i == 0, 0, i - 1)
@@ -150,17 +166,21 @@ package minruntime
 //@   lemma [startIsChildOfLCA] preemptorPath[0].UID == preempteePath[0].UID ==> (lcaIndex < minLen(preemptorPath, preempteePath) && preemptorPath[lcaIndex].UID != preempteePath[lcaIndex].UID) || lcaIndex >= len(preemptorPath) || (lcaIndex == len(preempteePath) - 1 && commonUpTo(preemptorPath, preempteePath, lcaIndex))
 //@   lemma [walkUpFromStart] preemptorPath[0].UID == preempteePath[0].UID ==> 0 <= lcaIndex && lcaIndex < len(preempteePath) && result0.Duration == reclaimMR(r, preempteePath[lcaIndex])
 //@   ensures result1 == nil
+//@   ensures [memoisedForThisPair] old(r.reclaimMinRuntimeCache) != nil ==> rcHas(r, preemptorQueue.UID, preempteeQueue.UID) && rcVal(r, preemptorQueue.UID, preempteeQueue.UID) == result0.Duration
 //@ end
 
-// Cache hit path: map with struct values (over-approximated by the engine) - functional post for the miss path.
 //@ func (*resolver).getReclaimMinRuntime
 //@   props C06
 //@   requires r != nil && acyclic(r)
 //@   assume reclaimMRdef(r)
-//@   modifies family(r.reclaimMinRuntimeCache[*]), family(r.reclaimMinRuntimeCache[""][*])
+//@   # frame = "an answer computed for one pair is never filed under another": only the entry of THIS pair (and the
+//@   # reclaimer queue's row, created on first use) may change
+//@   modifies r.reclaimMinRuntimeCache[preemptorQueue.UID], r.reclaimMinRuntimeCache[preemptorQueue.UID][preempteeQueue.UID]
 //@   ensures [nilQueueDefault] (preemptorQueue == nil || preempteeQueue == nil) ==> result0.Duration == r.defaultReclaimMinRuntime.Duration && result1 != nil
 //@   ensures [queueMethodResolved] preemptorQueue != nil && preempteeQueue != nil && resolveMethod != "lca" && !old(preempteeQueue.UID in r.reclaimMinRuntimeCache[preemptorQueue.UID]) ==> result0.Duration == reclaimMR(r, preempteeQueue)
 //@   ensures preemptorQueue != nil && preempteeQueue != nil ==> result1 == nil
+//@   ensures [memoHit] preemptorQueue != nil && preempteeQueue != nil && old(rcHas(r, preemptorQueue.UID, preempteeQueue.UID)) ==> result0.Duration == old(rcVal(r, preemptorQueue.UID, preempteeQueue.UID))
+//@   ensures [memoisedForThisPair] preemptorQueue != nil && preempteeQueue != nil && old(r.reclaimMinRuntimeCache) != nil ==> rcHas(r, preemptorQueue.UID, preempteeQueue.UID) && rcVal(r, preemptorQueue.UID, preempteeQueue.UID) == result0.Duration
 //@ end
 
 // ---- minruntime.go: protection predicates ---------------------------------------------------------------
